@@ -28,6 +28,8 @@ def run_property(prop: str, repo: Path, tier: str, seed: int, write_evidence: bo
         check_params_stable(ctx)
         check_decorators(ctx)
         check_overrides(ctx)
+        from .rules.common import check_module_effects
+        check_module_effects(ctx)
         from .rules.support import check_reachable_support
         check_reachable_support(ctx)
         extra = {}
